@@ -283,6 +283,13 @@ CORRUPTIONS = [
     ("agp", "non-numeric-start", lambda f: f[:6] + ["1x"] + f[7:] if f[4] == "W" else f[:5] + ["len"] + f[6:]),
     ("agp", "reversed-coordinates", lambda f: f[:6] + [f[7], f[6]] + f[8:] if f[4] == "W" and f[6] != f[7] else f[:5] + ["-"] + f[6:]),
     ("agp", "only-two-columns", lambda f: f[:2]),
+    # legal but unusual lines: the other sequence component types of the AGP format (A D F G O P) and gap lines of type N
+    ("agp", "component-type-F", lambda f: f[:4] + ["F"] + f[5:] if f[4] == "W" else f[:4] + ["N"] + f[5:]),
+    ("agp", "component-type-A", lambda f: f[:4] + ["A"] + f[5:] if f[4] == "W" else f),
+    ("agp", "component-type-P", lambda f: f[:4] + ["P"] + f[5:] if f[4] == "W" else f),
+    ("agp", "component-type-O", lambda f: f[:4] + ["O"] + f[5:] if f[4] == "W" else f),
+    ("agp", "component-type-D", lambda f: f[:4] + ["D"] + f[5:] if f[4] == "W" else f),
+    ("agp", "component-type-G", lambda f: f[:4] + ["G"] + f[5:] if f[4] == "W" else f),
     ("tpf", "drop-last-column", lambda f: f[:-1]),
     ("tpf", "extra-column", lambda f: f + ["x"] if f[0] != "GAP" else f[:1]),
     ("tpf", "bad-strand", lambda f: f[:3] + ["SIDEWAYS"] if f[0] != "GAP" else f[:2] + ["n"]),
